@@ -48,7 +48,7 @@ func runC10(w *core.WorkerCtx, idx int) *core.CaseResult {
 	r := core.NewRng(w.Seed, 0xC10, uint64(idx))
 	res := &core.CaseResult{}
 	dir := filepath.Join(w.Scratch, fmt.Sprintf("c10-%d", idx))
-	rg, err := newRig(dir, "10s", "")
+	rg, err := newRig(dir, rigLongTimeout, "")
 	if err != nil {
 		res.Inconcl = "rig: " + err.Error()
 		return res
@@ -340,7 +340,7 @@ func runC10(w *core.WorkerCtx, idx int) *core.CaseResult {
 				break
 			}
 			in := rg.in
-			if err := in.PushConfig(fmt.Sprintf(rigConfigTmpl, "10s", "")); err != nil {
+			if err := in.PushConfig(fmt.Sprintf(rigConfigTmpl, rigLongTimeout, "")); err != nil {
 				res.Inconcl = "push config after restart: " + err.Error()
 				break
 			}
